@@ -313,6 +313,34 @@ def random_history(rng, c, steps):
             '_decisions': decisions}
 
 
+def paired_history(rng, c1, c2, steps):
+    """two strategy objects with different configurations alive at the same time, refined alternately: each must behave as if alone"""
+    runs = []
+    for c in (c1, c2):
+        run = DimWiseRun(c['D'], c['lmin'], c['lmax'], version=c['version'], rebalancing=c['rebalancing'], boundary=c['boundary'],
+                         safety=c['sfn'] / c['sfd'], margin=c.get('margin'), a=c.get('a'), b=c.get('b'), max_hats=c.get('max_hats'), hat_seed=rng.randint(0, 10 ** 6),
+                         int_domain=c.get('int_domain', False))
+        runs.append(run)
+    for run in runs:
+        run.evaluate()
+    evs = [[observe(run)] for run in runs]
+    scripts, decisions, dead = [[], []], [[], []], [False, False]
+    for _ in range(steps):
+        for i, (run, c) in enumerate(zip(runs, (c1, c2))):
+            if dead[i] or sum(len(run.intervals(d)) for d in range(run.D)) > c.get('maxintervals', 40):
+                continue
+            B = random_benefits(run, rng)
+            sel = selection_of(run, B)
+            decisions[i].append(sorted((d, run.snap(d, run.intervals(d)[j].start), run.snap(d, run.intervals(d)[j].end)) for d, j in sel))
+            ev = do_step(run, B)
+            evs[i].append(ev)
+            scripts[i].append(B)
+            dead[i] = ev['aborted']
+    return [{'cfg': trace_cfg(run, c['lmax']), 'fresh': True, 'events': [strip(e) for e in evs[i]], 'origin': 'paired ' + c['name'],
+             '_script': {'cfg': dict(run.cfg), 'start_depth': 0, 'steps': scripts[i]}, '_detail': [e.get('_detail') for e in evs[i]], '_decisions': decisions[i]}
+            for i, (run, c) in enumerate(zip(runs, (c1, c2)))]
+
+
 def chain_history(c, pattern, hat_seed=0):
     """deterministic history: every step refines the first ('F') or last ('L') interval of the named dimensions only, e.g.
     [('L', (0, 1)), ('L', (0,))] = last interval of dimensions 0 and 1, then last interval of dimension 0.  The same object is
